@@ -31,6 +31,11 @@ pub(crate) struct Thread {
     /// True if the thread is in a critical section
     pub critical: bool,
 
+    /// True once the thread has handed over in the middle of unwinding from a
+    /// panic (a destructor had to wait). If the execution fails before the
+    /// thread gets to finish, the scheduler finishes the unwind.
+    pub(crate) suspended_unwind: bool,
+
     /// The operation the thread is about to take
     pub(super) operation: Option<Operation>,
 
@@ -126,6 +131,7 @@ impl Thread {
             unpark_causality: VersionVec::new(),
             park_object: None,
             critical: false,
+            suspended_unwind: false,
             operation: None,
             causality: VersionVec::new(),
             released: VersionVec::new(),
